@@ -68,27 +68,44 @@ func ClaimTask(c gocoro.Coroutine[*t_aio.Submission, *t_aio.Completion, any], r 
 			status = t_api.StatusTaskInvalidCounter
 		} else {
 			expiresAt := c.Time() + int64(r.ClaimTask.Ttl)
+
+			// claim the task and read its promises in the same transaction, so that the
+			// response reflects a single instant: a promise read after the claim could
+			// already be completed, which in turn completes (unclaims) the task
+			commands := []*t_aio.Command{
+				{
+					Kind: t_aio.UpdateTask,
+					UpdateTask: &t_aio.UpdateTaskCommand{
+						Id:             r.ClaimTask.Id,
+						ProcessId:      &r.ClaimTask.ProcessId,
+						State:          task.Claimed,
+						Counter:        r.ClaimTask.Counter,
+						Attempt:        t.Attempt,
+						Ttl:            r.ClaimTask.Ttl,
+						ExpiresAt:      expiresAt, // time to expire unless heartbeated
+						CurrentStates:  []task.State{task.Init, task.Enqueued},
+						CurrentCounter: r.ClaimTask.Counter,
+					},
+				},
+				{
+					Kind:        t_aio.ReadPromise,
+					ReadPromise: &t_aio.ReadPromiseCommand{Id: t.Mesg.Root},
+				},
+			}
+
+			if t.Mesg.Type == message.Resume {
+				commands = append(commands, &t_aio.Command{
+					Kind:        t_aio.ReadPromise,
+					ReadPromise: &t_aio.ReadPromiseCommand{Id: t.Mesg.Leaf},
+				})
+			}
+
 			completion, err := gocoro.YieldAndAwait(c, &t_aio.Submission{
 				Kind: t_aio.Store,
 				Tags: r.Tags,
 				Store: &t_aio.StoreSubmission{
 					Transaction: &t_aio.Transaction{
-						Commands: []*t_aio.Command{
-							{
-								Kind: t_aio.UpdateTask,
-								UpdateTask: &t_aio.UpdateTaskCommand{
-									Id:             r.ClaimTask.Id,
-									ProcessId:      &r.ClaimTask.ProcessId,
-									State:          task.Claimed,
-									Counter:        r.ClaimTask.Counter,
-									Attempt:        t.Attempt,
-									Ttl:            r.ClaimTask.Ttl,
-									ExpiresAt:      expiresAt, // time to expire unless heartbeated
-									CurrentStates:  []task.State{task.Init, task.Enqueued},
-									CurrentCounter: r.ClaimTask.Counter,
-								},
-							},
-						},
+						Commands: commands,
 					},
 				},
 			})
@@ -98,41 +115,13 @@ func ClaimTask(c gocoro.Coroutine[*t_aio.Submission, *t_aio.Completion, any], r 
 			}
 
 			util.Assert(completion.Store != nil, "completion must not be nil")
+			util.Assert(len(completion.Store.Results) == len(commands), "number of results must match number of commands")
 			result := completion.Store.Results[0].UpdateTask
 			util.Assert(result.RowsAffected == 0 || result.RowsAffected == 1, "result must return 0 or 1 rows")
 
 			if result.RowsAffected == 1 {
-				commands := []*t_aio.Command{{
-					Kind:        t_aio.ReadPromise,
-					ReadPromise: &t_aio.ReadPromiseCommand{Id: t.Mesg.Root},
-				}}
-
-				if t.Mesg.Type == message.Resume {
-					commands = append(commands, &t_aio.Command{
-						Kind:        t_aio.ReadPromise,
-						ReadPromise: &t_aio.ReadPromiseCommand{Id: t.Mesg.Leaf},
-					})
-				}
-
-				completion, err := gocoro.YieldAndAwait(c, &t_aio.Submission{
-					Kind: t_aio.Store,
-					Tags: r.Tags,
-					Store: &t_aio.StoreSubmission{
-						Transaction: &t_aio.Transaction{
-							Commands: commands,
-						},
-					},
-				})
-
-				if err != nil {
-					slog.Error("failed to read promises", "req", r, "err", err)
-					return nil, t_api.NewError(t_api.StatusAIOStoreError, err)
-				}
-
-				util.Assert(completion.Store != nil, "completion must not be nil")
-				util.Assert(len(completion.Store.Results) == len(commands), "number of results must match number of commands")
-				util.Assert(completion.Store.Results[0].ReadPromise != nil, "result must not be nil")
-				util.Assert(t.Mesg.Type != message.Resume || completion.Store.Results[1].ReadPromise != nil, "if resume, result must not be nil")
+				util.Assert(completion.Store.Results[1].ReadPromise != nil, "result must not be nil")
+				util.Assert(t.Mesg.Type != message.Resume || completion.Store.Results[2].ReadPromise != nil, "if resume, result must not be nil")
 
 				// set promises
 				rh = fmt.Sprintf("%s/promises/%s", config.Url, t.Mesg.Root)
@@ -141,15 +130,15 @@ func ClaimTask(c gocoro.Coroutine[*t_aio.Submission, *t_aio.Completion, any], r 
 					lh = fmt.Sprintf("%s/promises/%s", config.Url, t.Mesg.Leaf)
 				}
 
-				if completion.Store.Results[0].ReadPromise.RowsReturned == 1 {
-					rp, err = completion.Store.Results[0].ReadPromise.Records[0].Promise()
+				if completion.Store.Results[1].ReadPromise.RowsReturned == 1 {
+					rp, err = completion.Store.Results[1].ReadPromise.Records[0].Promise()
 					if err != nil {
 						slog.Error("failed to parse promise", "err", err)
 					}
 				}
 
-				if t.Mesg.Type == message.Resume && completion.Store.Results[1].ReadPromise.RowsReturned == 1 {
-					lp, err = completion.Store.Results[1].ReadPromise.Records[0].Promise()
+				if t.Mesg.Type == message.Resume && completion.Store.Results[2].ReadPromise.RowsReturned == 1 {
+					lp, err = completion.Store.Results[2].ReadPromise.Records[0].Promise()
 					if err != nil {
 						slog.Error("failed to parse promise", "err", err)
 					}
